@@ -212,6 +212,12 @@ DiamondFamily == { Scn("diamond", F(<<L("", "T5", "")>>, <<>>), ins, cs) :
                                       FP(<<L("", "T3", ""), L("", "T4", "")>>, <<L("", "T5", "")>>)}) }
                  \cup { Scn("diamond", F(<<L("", "T3", "")>>, <<>>), <<L("a", "T1", "x")>>, cs) :
                      cs \in PermSeqs({F(<<L("a", "T1", "")>>, <<L("b", "T2", "y")>>), F(<<L("b", "T2", "")>>, <<L("", "T3", "")>>)}) }
+\* a two-way conversion through an INTERFACE type: the supplied value is of a concrete type that implements it, a converter
+\* takes the interface and another one produces it (an interface-typed vertex that is itself produced must still be fed by
+\* the values that implement it)
+IfaceCycleFamily == { Scn("ifacecycle", F(<<L("", tt, "")>>, <<>>), <<pv>>, cs) :
+                        tt \in {"I1", "T3"}, pv \in {L("", "T1", ""), L("", "T2", ""), L("a", "T1", "")},
+                        cs \in PermSeqs({FP(<<L("", "I1", "")>>, <<L("", "T3", "")>>), FP(<<L("", "T3", "")>>, <<L("", "I1", "")>>)}) }
 \* one name all the way: a named (and subtyped) input, single-input converters between values of that same name (a chain, or a
 \* two-way conversion) and a target parameter of that name - every edge on the way carries the same-name discount, so the
 \* distances of the search are NEGATIVE from the second vertex on (a search that mistrusts negative sums loses the path)
@@ -297,9 +303,9 @@ C16Family == C16Sub \cup C16Nil \cup C16NoParam \cup C16Reuse \cup UNION { { [Sc
 -----------------------------------------------------------------------------
 FamilyScenarios == CASE Family = "C03" -> C03Family \cup SameSigFamily
                      [] Family = "C07" -> C07Family
-                     [] Family = "C05" -> C05Family \cup CycleFamily \cup MatchFamily \cup XFamily \cup DiamondFamily \cup NameChainFamily
+                     [] Family = "C05" -> C05Family \cup CycleFamily \cup MatchFamily \cup XFamily \cup DiamondFamily \cup NameChainFamily \cup IfaceCycleFamily
                      [] Family = "C08" -> C08Family \cup C08k
-                     [] Family = "C02" -> CycleFamily \cup C05Family \cup MatchFamily \cup XFamily \cup DiamondFamily \cup NameChainFamily
+                     [] Family = "C02" -> CycleFamily \cup C05Family \cup MatchFamily \cup XFamily \cup DiamondFamily \cup NameChainFamily \cup IfaceCycleFamily
                      [] Family = "C06" -> CycleFamily \cup C04Family \cup NameChainFamily
                      [] Family = "C04" -> C04Family
                      [] Family = "C13" -> CycleFamily \cup MatchFamily \cup SlashFamily
